@@ -283,8 +283,9 @@ class MGen(G.TreeGen):
         x = r.random()
         if x < 0.6:
             sign = r.choice(["", "", "+", "-", "-"])
-            if sign == "-" and r.random() < 0.15:
-                n = 2 ** 31
+            if sign == "-" and r.random() < 0.4:          # a negative integer is an i64 in the macro (macros::number)
+                n = r.choice([2 ** 31, 2 ** 31 + 1, 2 ** 32, 3000000000, 2 ** 63, 2 ** 63 - 1, r.randrange(2 ** 31, 2 ** 63 + 1),
+                              2 ** r.randrange(31, 64)])
             return ("i", sign, self.us(str(n)).encode())
         if x < 0.75:
             h = "%x" % n
@@ -505,19 +506,20 @@ FIXED = [
     [("K", _p("fn"), _i("1")), ("K", _p("type"), _i("2")), ("K", _p("self"), _i("3")), ("K", _p("Self"), _i("4")), ("K", _p("crate"), _i("5"))],
     [("K", _p("a", "1"), _i("1")), ("K", _p("a", "2", "b"), _i("2")), ("K", _p("a", "3", "e5"), _i("3"))],
     [("H", [_q("")]), ("K", [_q("")], ("s", b"")), ("A", [_q(""), _q("a.b")]), ("K", _p("x"), ("a", False, [("l", [(_p("k"), ("s", b"v"))])]))],
+    # negative integers beyond i32 (repaired by `macros::number`: they used to wrap), down to i64::MIN
+    [("K", _p("a"), _i("2147483649", "-")), ("K", _p("b"), _i("4294967296", "-")), ("K", _p("c"), _i("9223372036854775808", "-")),
+     ("K", _p("d"), ("a", False, [_i("3000000000", "-"), _i("1", "-"), ("f", "-", b"1.5"), _i("0", "-")])),
+     ("K", _p("e"), ("l", [(_p("x"), _i("9223372036854775807", "-")), (_p("y"), _i("2_147_483_649", "-"))]))],
     [("H", _p("target", "cfg(windows)", "dependencies")), ("K", _p("winapi"), ("l", [(_p("version"), ("s", b"0.3")), (_p("features"), ("a", False, [("s", b"x")]))]))],
 ]
 
 # spellings that compile but are outside `macro_supported`: the macro and the parser differ (Props/C19.v
-# `..._refuted` lemmas).  They run for the model/implementation correspondence only.
+# `C19_int_key_refuted`).  They run for the model/implementation correspondence only.
 UNSUPPORTED = [
     [("K", [("b", [("n", b"05")])], _i("1"))],                 # concat! prints the integer literal by value: key "5"
     [("K", [("b", [("n", b"1_000")])], _i("1"))],              # key "1000"
     [("K", [("b", [("n", b"0x10")])], _i("1"))],               # key "16"
     [("K", [("b", [("n", b"1979"), ("n", b"05"), ("n", b"27")])], _i("1"))],   # key "1979-5-27"
-    [("K", _p("a"), _i("2147483649", "-"))],                   # wraps to 2147483647
-    [("K", _p("a"), _i("4294967296", "-"))],                   # wraps to 0
-    [("K", _p("a"), ("a", False, [_i("3000000000", "-")]))],
 ]
 
 
@@ -562,7 +564,7 @@ def program(texts):
 # macro are compared with a committed digest (they are modelled by hand: a change means "re-inspect").
 # ---------------------------------------------------------------------------------------------
 MACROS_RS = os.path.join("crates", "toml", "src", "macros.rs")
-CODE_DIGEST = "0228f8618f7aa728780fdfb03ff5cb6f398d7379"
+CODE_DIGEST = "07d69e9f11cbb493bad222f1f91a82af3bb58b21"
 
 
 def strip_comments(src):
@@ -698,6 +700,8 @@ def classify(body):
         return "const f:-inf"
     if "INFINITY" in b:
         return "const f:inf"
+    if b == "$crate::macros::number(-$v)":
+        return "neg"
     if "into_deserializer($v)" in b and "deserialize(de).unwrap()" in b:
         return "other"
     return "unknown:" + b[:60]
@@ -863,7 +867,7 @@ def gen_cases(rng, tier):
     for k, st in enumerate(UNSUPPORTED):
         c = make_case(rng, st, "unsupported", supported=False)
         # these spellings compile silently and give a table different from the parser's: recorded findings, judged as such
-        c.meta["finding"] = "C19-int-key-by-value" if k < 4 else "C19-negative-i32-wrap"
+        c.meta["finding"] = "C19-int-key-by-value"
         cases.append(c)
     n = N_DOCS.get(tier, 300)
     seen = set()
@@ -978,14 +982,15 @@ THEOREMS = [
     "C19_eval_is_the_specification / C19_macro_eq_spec: every document the unmodified claims specification of C09 (Spec/Defs.v spec_run) calls valid is valid for eval, with the same content under every key recursively (order of keys aside); hence the macro's table has the content of the specified tree",
     "C19_helpers_follow_definition_rules / C19_helper_step: insert_toml, insert_table_toml, push_toml through traverse build what the TOML definition rules say, statement by statement, on every valid document",
     "C19_value_eq_parse / C19_datetime_rules: every supported value (signed numbers through rustc's literal typing, the four date-time kinds with T/t/space, fraction, Z/z/-hh:mm through stringify!+from_str and C12, arrays and inline tables through the @trailingcomma/@array/@table loops) gets its TOML meaning",
-    "C19_int_key_refuted, C19_negative_wrap_refuted: two families of spellings that compile but are outside macro_supported (`05 = 1` names key \"5\"; `a = -2147483649` wraps to 2147483647), witnesses replayed on the real macro",
+    "C19_negative_integers: every negative integer TOML accepts (down to i64::MIN) is a supported spelling and gets its value (macros::number types the negated literal i64; before that repair -2147483649 wrapped)",
+    "C19_int_key_refuted: a family of spellings that compiles but is outside macro_supported (`05 = 1` names key \"5\"), witnesses replayed on the real macro",
 ]
 RULE = ("programs of generated valid documents (gen_toml.TreeGen over macro-supported spellings, judged valid by the reference "
         "interpreter) embedded in toml!{..} and as string literals; non-trivial = supported, valid, and both sides produced a table")
 ASSUMPTIONS = [
     "rustc's lexer and macro-by-example matcher are modelled (Spec/MacroSpec.v tokens_of, Model/Macro.v match_pat); the generated "
     "program sets #![recursion_limit] high enough for the tt-muncher",
-    "integers in toml!{} are i32 (unsuffixed literal fallback); outside i32 the macro does not compile (positive) or wraps (negative): excluded by macro_supported",
+    "unsigned / `+` integers in toml!{} are i32 (unsuffixed literal fallback): above i32::MAX the macro does not compile: excluded by macro_supported; negative integers are i64",
 ]
 
 
